@@ -324,9 +324,12 @@ public:
      */
     Solution solveBounded(const Region<N>& region, double shrink=(1 - 1e-9))
     {
+        // With no samples at all, AtA(N, N) is zero and the average distance
+        // value is 0 / 0; every candidate error would then be NaN and the
+        // search would return its dummy position (the origin).
         return solveBounded(region, shrink,
                             (region.lower + region.upper) / 2.0,
-                            AtBp(N, N) / AtA(N, N));
+                            AtA(N, N) ? AtBp(N, N) / AtA(N, N) : 0.0);
     }
 
     Solution solveBounded(const Region<N>& region, double shrink,
